@@ -707,6 +707,73 @@ def alpha_form(f: ast.AST):
     return hashlib.sha1(text.encode()).hexdigest()[:20], order, nodes
 
 
+def def_keys(f: ast.AST):
+    """[(local, key)] in binding order: key = digest of the statement shape that FIRST binds the local (the value for an assignment, the iterable for a loop variable,
+    the position inside a tuple target), with every own local that occurs in it replaced by ITS key (or a forward marker when it is bound later).  Keys do not depend
+    on what any local is called, nor on anything else in the function: a local whose defining statement is unchanged keeps its key when the rest of the function is
+    edited.  Equal keys are told apart by their occurrence number."""
+    import copy
+    locs, nodes = _own_locals(f)
+    locset = set(locs)
+    first_stmt = {}
+
+    def simple_parent(stmts):
+        for st in stmts:
+            if isinstance(st, (ast.FunctionDef, ast.AsyncFunctionDef, ast.ClassDef)):
+                continue
+            header = []
+            if isinstance(st, (ast.Assign, ast.AugAssign, ast.AnnAssign)):
+                header = [st]
+            elif isinstance(st, ast.For):
+                header = [st.target]
+            elif isinstance(st, ast.With):
+                header = [i.optional_vars for i in st.items if i.optional_vars is not None]
+            for h in header:
+                tg = h.targets if isinstance(h, ast.Assign) else ([h.target] if isinstance(h, (ast.AugAssign, ast.AnnAssign)) else [h])
+                for t in tg:
+                    for k_, x in enumerate(y for y in ast.walk(t) if isinstance(y, ast.Name) and isinstance(y.ctx, ast.Store)):
+                        if x.id in locset and x.id not in first_stmt:
+                            first_stmt[x.id] = (st, k_)
+            if isinstance(st, ast.Try):
+                for hd in st.handlers:
+                    if hd.name and hd.name in locset and hd.name not in first_stmt:
+                        first_stmt[hd.name] = (hd, 0)
+                    simple_parent(hd.body)
+            for fld in ("body", "orelse", "finalbody"):
+                b = getattr(st, fld, None)
+                if isinstance(b, list) and b and isinstance(b[0], ast.stmt):
+                    simple_parent(b)
+    simple_parent(f.body)
+    keys = {}
+    out = []
+    for v in locs:
+        ent = first_stmt.get(v)
+        if ent is None:
+            keys[v] = "?" + str(len(out))
+            out.append((v, keys[v]))
+            continue
+        st, pos = ent
+        if isinstance(st, ast.For):
+            kind, expr = "for", st.iter
+        elif isinstance(st, ast.With):
+            kind, expr = "with", st.items[0].context_expr
+        elif isinstance(st, ast.ExceptHandler):
+            kind, expr = "except", st.type
+        elif isinstance(st, ast.AugAssign):
+            kind, expr = "aug" + type(st.op).__name__, st.value
+        else:
+            kind, expr = "assign", getattr(st, "value", None)
+        e2 = copy.deepcopy(expr) if expr is not None else ast.Constant(value=None)
+        for x in ast.walk(e2):
+            if isinstance(x, ast.Name) and x.id in locset:
+                x.id = keys.get(x.id, "_FWD")
+        e2 = _KwSort().visit(_Commute().visit(e2))
+        text = f"{kind}|{pos}|" + ast.dump(e2, annotate_fields=False, include_attributes=False)
+        keys[v] = "_K" + hashlib.sha1(text.encode()).hexdigest()[:12]
+        out.append((v, keys[v]))
+    return out
+
+
 def _qualified_functions(tree: ast.Module):
     out = []
 
@@ -725,7 +792,7 @@ def _qualified_functions(tree: ast.Module):
 
 
 def alpha_table(tree: ast.Module):
-    return {q: {"digest": alpha_form(f)[0], "locals": alpha_form(f)[1]} for q, f in _qualified_functions(tree)}
+    return {q: {"digest": alpha_form(f)[0], "locals": alpha_form(f)[1], "defs": [k for _, k in def_keys(f)]} for q, f in _qualified_functions(tree)}
 
 
 def reference_table() -> dict:
@@ -755,16 +822,58 @@ def restore_local_names(tree: ast.Module, relpath: str) -> int:
         if not r:
             continue
         order, _ = _own_locals(f)
-        if order == r["locals"] or len(order) != len(r["locals"]):
-            continue   # same names (the usual case: no digest needed) or a different set of locals
-        digest, order, nodes = alpha_form(f)
-        if digest != r["digest"]:
+        if order == r["locals"]:
+            continue   # same names (the usual case: no digest needed)
+        full = False
+        if len(order) == len(r["locals"]):
+            digest, order, nodes = alpha_form(f)
+            if digest == r["digest"]:
+                ren = dict(zip(order, r["locals"]))
+                if len(set(ren.values())) == len(ren):
+                    for x in nodes:
+                        if x.id in ren:
+                            x.id = ren[x.id]
+                    n += 1
+                    full = True
+        if full or "defs" not in r:
             continue
-        ren = dict(zip(order, r["locals"]))
+        # partial N5: the function was changed in more than names.  Every local whose DEFINING statement still has its reference shape (def_keys) gets its reference
+        # name back; the others keep theirs.  (A renaming of locals is behaviour-preserving as long as nothing is captured: a target name that is already in use stays.)
+        ref_by_key = {}
+        seen_k = {}
+        for nm_, k_ in zip(r["locals"], r["defs"]):
+            j_ = seen_k.get(k_, 0)
+            seen_k[k_] = j_ + 1
+            ref_by_key[(k_, j_)] = nm_
+        cur = def_keys(f)
+        seen_k = {}
+        ren = {}
+        for nm_, k_ in cur:
+            j_ = seen_k.get(k_, 0)
+            seen_k[k_] = j_ + 1
+            tgt = ref_by_key.get((k_, j_))
+            if tgt is not None and tgt != nm_ and not k_.startswith("?"):
+                ren[nm_] = tgt
+        if not ren:
+            continue
+        _, nodes = _own_locals(f)
+        used = {x.id for x in ast.walk(f) if isinstance(x, ast.Name)} | {a.arg for a in ast.walk(f) if isinstance(a, ast.arg)}
+        # a target that is in use by a name which is not itself renamed away would be captured: drop those renamings (iterate: dropping one may free / block another)
+        changed_ = True
+        while changed_:
+            changed_ = False
+            for src_, tgt_ in list(ren.items()):
+                if tgt_ in used and tgt_ not in ren:
+                    del ren[src_]
+                    changed_ = True
         if len(set(ren.values())) != len(ren):
             continue
-        for x in nodes:
-            if x.id in ren:
-                x.id = ren[x.id]
-        n += 1
+        if ren:
+            for x in nodes:
+                if x.id in ren:
+                    x.id = ren[x.id]
+            for h in ast.walk(f):
+                if isinstance(h, ast.ExceptHandler) and h.name in ren:
+                    h.name = ren[h.name]
+            n += 1
     return n
